@@ -608,7 +608,8 @@ COLLAPSE_GUARDS = [
      {"if_token": {"trailing"}, "condition": {"leading", "trailing"}, "then_token": {"leading", "trailing"},
       "block": {"leading", "trailing"}}),
     ("collapsed function body", ["formatters::functions::should_collapse_function_body"],
-     {"parameters_parentheses": {"trailing"}, "end_token": {"leading"}, "block": {"leading", "trailing"}}),
+     {"parameters_parentheses": {"trailing"}, "end_token": {"leading"}, "block": {"leading", "trailing"},
+      "return_type?luau": {"trailing"}}),
 ]
 COMMENT_TEST = re.compile(r"(trivia_util::contains_comments$|has_leading_comments$|has_trailing_comments$|"
                           r"token_contains_comments\w*$|contains_singleline_comments$|has_inline_comments$)")
@@ -650,6 +651,14 @@ def rule_collapse(ctx, prop):
                         n = c.split("::")[-1]
                         sides = {"leading"} if "leading" in n else {"trailing"} if "trailing" in n else {"leading", "trailing"}
                         node_arg = t["args"][0]
+                    elif re.search(r"::(map_or|is_some_and|map_or_else|is_none_or)$", c) and \
+                            any(is_const(a) and COMMENT_TEST.search((a.get("rfn") or a.get("fn") or "").split("::<")[0])
+                                for a in t["args"]):
+                        # `opt.map_or(false, contains_comments)`
+                        fnname = [a.get("rfn") or a.get("fn") for a in t["args"] if is_const(a) and "fn" in a][0]
+                        n = fnname.split("::<")[0].split("::")[-1]
+                        sides = {"leading"} if "leading" in n else {"trailing"} if "trailing" in n else {"leading", "trailing"}
+                        node_arg = t["args"][0]
                     elif re.search(r"Iterator>::any$|::any$", c) and len(t["args"]) >= 2:
                         # `.leading_trivia().any(trivia_is_comment)`
                         fnref = [r for r in provenance(f, t["args"][1], through=None) if r[0] == "const" and "trivia_is_comment" in r[1]]
@@ -662,9 +671,12 @@ def rule_collapse(ctx, prop):
                     if sides is None or node_arg is None or is_const(node_arg):
                         continue
                     key = _accessor_chain(f, node_arg)
-                    for acc in need:
+                    for acc in [k.split("?")[0] for k in need]:
                         if f"::{acc};" in key or f".{acc};" in key:
                             tested.setdefault(acc, set()).update(sides)
+            import extract as _ex
+            need = {k.split("?")[0]: v for k, v in need.items()
+                    if "?" not in k or k.split("?")[1] in _ex.FEATURES[cfg]}
             for acc, sides in need.items():
                 missing = sorted(sides - tested.get(acc, set()))
                 rep.inst(f"stylua_lib {name}: {acc} tested for comments", {"guard": name, "token": acc,
